@@ -506,6 +506,9 @@ def main(tier, seed):
     # ---- quantitative rounding bounds (Props/C06_rounding.v) on the real functions
     import c06_rounding
     c06_rounding.run(rep, D, tier, seed)
+    # ---- bit-exact binary64 correspondence: DISTANCES[name] vs metric_flt (Model/MetricFlt.v, Props/C06_flt.v)
+    import c06_flt
+    c06_flt.run(rep, D, tier, seed)
     return rep.finish()
 
 
@@ -531,6 +534,9 @@ def replay(path):
     if r["kind"] == "rounding":
         import c06_rounding
         return c06_rounding.replay(r, dist.DISTANCES)
+    if r["kind"] == "metric_flt":
+        import c06_flt
+        return c06_flt.replay(r, dist.DISTANCES)
     if r["kind"] == "registry":
         import opfython.models as models
         import opfython.utils.exception as oe
